@@ -71,7 +71,7 @@ class OnceTimedOperation(AbstractDenseTimeOnlineOperation):
                 last = [b[0], b[2]]
                 if b[2] != prev or i == len(out) - 1:
                     sample_result.append(last)
-                if self.residual_start > b[0]:
+                if self.residual_start >= b[0]:
                     last = [self.residual_start, b[2]]
                     self.prev.append((self.residual_start, b[1], b[2]))
             else:
